@@ -30,9 +30,15 @@ var universe2 = []string{"d-x", "d.x", "d!", "d/g/", "e/h/"}
 var prefixes = []string{"", "d", "d/", "d/e", "da", "x"}
 var oddPrefixes = []string{"d/e/", "d//", "/d/", ".uploads/", ".uploads/x/", "/", "d/../d/"}
 var maxKeysChoices = []int{1, 2, 3, 4, 1000}
-var styles = []string{"V2Token", "V1NextMarker", "V1LastKey", "V2StartAfter"}
+
+// the continuation-token style is what SDK paginators use: twice the weight
+var styles = []string{"V2Token", "V2Token", "V1NextMarker", "V1LastKey", "V2StartAfter"}
 var oddStarts = []string{"a", "b", "d", "d/", "d/a", "d/b", "d/e", "d/e/", "d/e/a", "da", "e", "zz", ".uploads/", ".uploads/x/", "x/y/z",
 	"d-x", "d.x", "d!", "d-", "d-x/a", "d/g", "e/h", "/", "/a", "d//a", "//", "d//"}
+
+// values sent in the parameters the handler must not read (marker on list-type=2 requests,
+// continuation-token / start-after on V1 requests)
+var strays = []string{"b", "d/b", "d/e/a", "da", "zz", "d.x"}
 
 const pageCap = 14
 
@@ -160,12 +166,67 @@ type params struct {
 	maxKeys int
 	delim   bool
 	style   string
-	start   string
+	start   string // marker (V1) / start-after (V2) of the first request
+	resend  bool   // V2Token: the original start-after goes with every token; V2StartAfter: the page's token goes with the moved start-after
+	stray   string // sent in the parameters of the other API version ("" = not sent)
+	fo      bool   // fetch-owner=true
+	enc     bool   // encoding-type=url
 }
 
-func (w *world) page(p params, marker string) page {
+// request is one GET /b?... (model/S3ListV2.v request)
+type request struct {
+	v2                        bool
+	marker, token, startAfter string
+}
+
+func (p params) v2() bool { return p.style == "V2Token" || p.style == "V2StartAfter" }
+
+func (p params) v1Request(marker string) request {
+	return request{v2: false, marker: marker, token: p.stray, startAfter: p.stray}
+}
+func (p params) v2Request(token, startAfter string) request {
+	return request{v2: true, marker: p.stray, token: token, startAfter: startAfter}
+}
+func (p params) firstRequest() request {
+	if p.v2() {
+		return p.v2Request("", p.start)
+	}
+	return p.v1Request(p.start)
+}
+
+// nextRequest is the client of model/S3ListV2.v next_request
+func (p params) nextRequest(pg page) (request, bool) {
+	switch p.style {
+	case "V2Token":
+		sa := ""
+		if p.resend {
+			sa = p.start
+		}
+		return p.v2Request(pg.next, sa), true
+	case "V2StartAfter":
+		k, ok := lastKey(pg)
+		if !ok {
+			return request{}, false
+		}
+		tok := ""
+		if p.resend {
+			tok = pg.next
+		}
+		return p.v2Request(tok, k), true
+	case "V1NextMarker":
+		return p.v1Request(pg.next), true
+	default:
+		k, ok := lastKey(pg)
+		if !ok {
+			return request{}, false
+		}
+		return p.v1Request(k), true
+	}
+}
+
+func (w *world) page(p params, rq request) page {
 	q := url.Values{}
-	v2 := p.style == "V2Token" || p.style == "V2StartAfter"
+	v2 := rq.v2
 	if v2 {
 		q.Set("list-type", "2")
 	}
@@ -176,20 +237,25 @@ func (w *world) page(p params, marker string) page {
 		q.Set("delimiter", "/")
 	}
 	q.Set("max-keys", fmt.Sprint(p.maxKeys))
-	if marker != "" {
-		switch p.style {
-		case "V2Token":
-			q.Set("continuation-token", marker)
-		case "V2StartAfter":
-			q.Set("start-after", marker)
-		default:
-			q.Set("marker", marker)
-		}
+	if rq.marker != "" {
+		q.Set("marker", rq.marker)
+	}
+	if rq.token != "" {
+		q.Set("continuation-token", rq.token)
+	}
+	if rq.startAfter != "" {
+		q.Set("start-after", rq.startAfter)
+	}
+	if p.fo {
+		q.Set("fetch-owner", "true")
+	}
+	if p.enc {
+		q.Set("encoding-type", "url")
 	}
 	w.env.S3.VerifS3SetAllowEmptyFolder(p.ae)
 	r := w.env.Do("GET", "/b?"+q.Encode(), nil, nil)
 	if r.Status != 200 {
-		panic(fmt.Sprintf("list %v marker %q: status %d: %s", p, marker, r.Status, r.Body))
+		panic(fmt.Sprintf("list %+v request %+v: status %d: %s", p, rq, r.Status, r.Body))
 	}
 	var lr listResult
 	hx.Must(xml.Unmarshal(r.Body, &lr))
@@ -229,23 +295,18 @@ func lastKey(pg page) (string, bool) {
 // paginate is the client: it continues as the style says until a page is not
 // truncated (or it cannot continue, or pageCap pages were read).
 func (w *world) paginate(p params) (pages []page) {
-	marker := p.start
+	rq := p.firstRequest()
 	for len(pages) < pageCap {
-		pg := w.page(p, marker)
+		pg := w.page(p, rq)
 		pages = append(pages, pg)
 		if !pg.trunc {
 			break
 		}
-		switch p.style {
-		case "V2Token", "V1NextMarker":
-			marker = pg.next
-		default:
-			m, ok := lastKey(pg)
-			if !ok {
-				return
-			}
-			marker = m
+		next, ok := p.nextRequest(pg)
+		if !ok {
+			return
 		}
+		rq = next
 	}
 	return
 }
@@ -289,6 +350,10 @@ func coqPage(pg page) string {
 
 // ---------- main ----------
 
+func mkp(ae bool, prefix string, maxKeys int, delim bool, style, start string) params {
+	return params{ae: ae, prefix: prefix, maxKeys: maxKeys, delim: delim, style: style, start: start}
+}
+
 type spec struct {
 	items []string
 	p     params
@@ -297,23 +362,23 @@ type spec struct {
 
 func main() {
 	out := hx.Flags("C27", 400)
-	out.Rule = "bucket trees = subsets of {a, b, d/a, d/b, d/e/a, d/e/b, d/f, da, .uploads/x/0001.part, e/ (empty dir)} plus each of {d-x, d.x, d! (extend a directory name by a byte below '/'), d/g/ (empty folder in a non-empty one), e/h/} with probability 1/3, created through filer.Filer.CreateEntry (inline content) over leveldb2; prefix in {\"\", d, d/, d/e, da, x} (1 in 12: an odd prefix such as d//, /d/, .uploads/), delimiter \"\" or /, max-keys in {1,2,3,4,1000}, allowEmptyFolder on/off, continuation style in {V2 continuation-token, V1 NextMarker, V1 last key as marker, V2 last key as start-after}; 1 case in 8 starts from an arbitrary marker/start-after (27 choices, among them d.x, d-x, d!, and markers with an empty segment: /, /a, d//a, //, d//); every case is a FULL pagination loop (at most 14 pages) through the real S3 router and the real filer gRPC ListEntries; the bucket is NOT restored between pages (a delimiter listing deletes folders), the bucket tree after the last request is read back from the raw store and compared; the first 10 cases are the fixed witnesses of the known findings; non-trivial = some page holds a key; distinct = canonical input"
+	out.Rule = "bucket trees = subsets of {a, b, d/a, d/b, d/e/a, d/e/b, d/f, da, .uploads/x/0001.part, e/ (empty dir)} (each 2/3) plus {d-x, d.x, d! (extend a directory name by a byte below '/'; each 1/2), d/g/ (empty folder in a non-empty one), e/h/ (each 1/3)}, created through filer.Filer.CreateEntry (inline content) over leveldb2; prefix in {\"\", d, d/, d/e, da, x} (1 in 12: an odd prefix such as d//, /d/, .uploads/), delimiter \"\" or /, max-keys in {1,2,3,4,1000}, allowEmptyFolder on/off; the client is request-level (model/S3ListV2.v): style in {V2 continuation-token (weight 2), V1 NextMarker, V1 last key as marker, V2 last key as start-after}; V2 requests carry list-type=2, fetch-owner=true 1 in 4, every request encoding-type=url 1 in 6, 1 case in 6 also sends a stray value in the parameters of the other API version (marker on V2, continuation-token+start-after on V1); the first request starts at a client-chosen marker (V1, 1 in 8) / start-after (V2, 1 in 2: two times in three a key or folder of this very bucket, then mostly with a prefix of that key, else one of 27 odd starts, among them d.x, d-x, d!, and markers with an empty segment); V2 clients resend 1 in 2: the continuation-token style resends the ORIGINAL start-after with every token (AWS SDK paginators), the start-after style sends the page's NextContinuationToken beside the moved start-after; every case is a FULL pagination loop (at most 14 pages) through the real S3 router (V1/V2 handler chosen by the router from list-type) and the real filer gRPC ListEntries; the bucket is NOT restored between pages (a delimiter listing deletes folders), the bucket tree after the last request is read back from the raw store and compared; the oracle judges the concatenated pages against the keys behind the first marker / start-after; the first 10 cases are the fixed witnesses of the known findings; non-trivial = some page holds a key; distinct = canonical input"
 	env := s3env.New(s3env.Options{})
 	defer env.Close()
 	w := &world{env: env}
 	root := hx.NewRng(out.Seed)
 
 	witnesses := []spec{
-		{[]string{"d/a", "d/b", "d/e/a"}, params{false, "d/", 1, false, "V1LastKey", ""}, "witness-k0"},
-		{[]string{".uploads/x/0001.part", "a", "b", "da"}, params{false, "", 2, false, "V2Token", ""}, "witness-k1"},
-		{[]string{"a", "d/a", "d/b", "da"}, params{false, "", 1, true, "V1LastKey", ""}, "witness-k2"},
-		{[]string{"d/e/a", "d/e/b", "d/f", "da"}, params{false, "", 1, false, "V2Token", ""}, "witness-k3"},
-		{[]string{".uploads/x/0001.part", "a"}, params{false, ".uploads/", 1000, false, "V2Token", ""}, "witness-k4"},
-		{[]string{"d/e/a", "da"}, params{false, "", 1000, false, "V2StartAfter", "d"}, "witness-k5"},
-		{[]string{"d/a", "d.x"}, params{false, "", 1000, false, "V2StartAfter", "d.x"}, "witness-k6"},
-		{[]string{"d/a", "d/b", "d.x"}, params{false, "", 1000, false, "V1NextMarker", "d/a"}, "witness-k6"},
-		{[]string{"a", "d/a", "d/e/a", "da"}, params{false, "", 1000, true, "V1NextMarker", "/"}, "witness-k7"},
-		{[]string{"a", "d/a", "d/e/a", "da"}, params{false, "d//", 1000, true, "V2Token", ""}, "witness-k7"},
+		{[]string{"d/a", "d/b", "d/e/a"}, mkp(false, "d/", 1, false, "V1LastKey", ""), "witness-k0"},
+		{[]string{".uploads/x/0001.part", "a", "b", "da"}, mkp(false, "", 2, false, "V2Token", ""), "witness-k1"},
+		{[]string{"a", "d/a", "d/b", "da"}, mkp(false, "", 1, true, "V1LastKey", ""), "witness-k2"},
+		{[]string{"d/e/a", "d/e/b", "d/f", "da"}, mkp(false, "", 1, false, "V2Token", ""), "witness-k3"},
+		{[]string{".uploads/x/0001.part", "a"}, mkp(false, ".uploads/", 1000, false, "V2Token", ""), "witness-k4"},
+		{[]string{"d/e/a", "da"}, mkp(false, "", 1000, false, "V2StartAfter", "d"), "witness-k5"},
+		{[]string{"d/a", "d.x"}, mkp(false, "", 1000, false, "V2StartAfter", "d.x"), "witness-k6"},
+		{[]string{"d/a", "d/b", "d.x"}, mkp(false, "", 1000, false, "V1NextMarker", "d/a"), "witness-k6"},
+		{[]string{"a", "d/a", "d/e/a", "da"}, mkp(false, "", 1000, true, "V1NextMarker", "/"), "witness-k7"},
+		{[]string{"a", "d/a", "d/e/a", "da"}, mkp(false, "d//", 1000, true, "V2Token", ""), "witness-k7"},
 	}
 
 	for i := 0; i < out.N; i++ {
@@ -329,25 +394,67 @@ func main() {
 				}
 			}
 			for _, u := range universe2 {
-				if r.Chance(1, 3) {
+				// the three names that sort between "d" and "d/": each half of the time
+				den := 3
+				if !strings.Contains(u, "/") {
+					den = 2
+				}
+				if r.Chance(1, den) {
 					s.items = append(s.items, u)
 				}
 			}
 			s.p.ae = r.Chance(1, 3)
-			if r.Chance(1, 12) {
+			s.p.delim = r.Bool()
+			s.p.maxKeys = r.PickInt(maxKeysChoices)
+			s.p.style = r.PickStr(styles)
+			v2 := s.p.v2()
+			oddPrefix := r.Chance(1, 12)
+			if oddPrefix {
 				s.p.prefix = r.PickStr(oddPrefixes)
 				s.kind = "odd-prefix"
 			} else {
 				s.p.prefix = r.PickStr(prefixes)
 				s.kind = "loop"
 			}
-			s.p.delim = r.Bool()
-			s.p.maxKeys = r.PickInt(maxKeysChoices)
-			s.p.style = r.PickStr(styles)
-			// a continuation token is opaque: only V1 marker / V2 start-after may start anywhere
-			if r.Chance(1, 8) && s.p.style != "V2Token" {
-				s.p.start = r.PickStr(oddStarts)
+			// the first request may start anywhere: V1 marker, V2 start-after (also for a
+			// client that then follows the continuation tokens).  V2 clients start after a
+			// key more often (start-after is what list-type=2 adds), two times in three after
+			// a key or folder of this very bucket, and then mostly with a prefix of that key
+			startOdds := 8
+			if v2 {
+				startOdds = 2
+			}
+			if r.Chance(1, startOdds) {
+				closed := buildItems(s.items)
+				sort.Strings(closed)
+				if v2 && len(closed) > 0 && r.Chance(2, 3) {
+					s.p.start = closed[r.Intn(len(closed))]
+					if !oddPrefix && r.Chance(3, 4) {
+						var fit []string
+						for _, pf := range prefixes {
+							if strings.HasPrefix(s.p.start, pf) {
+								fit = append(fit, pf)
+							}
+						}
+						s.p.prefix = r.PickStr(fit)
+					}
+				} else {
+					s.p.start = r.PickStr(oddStarts)
+				}
 				s.kind = "start"
+			}
+			if v2 {
+				// SDK paginators resend the original start-after with every token
+				s.p.resend = r.Bool()
+				s.p.fo = r.Chance(1, 4)
+			}
+			s.p.enc = r.Chance(1, 6)
+			if r.Chance(1, 6) {
+				// parameters of the other API version
+				s.p.stray = r.PickStr(strays)
+			}
+			if s.p.resend {
+				s.kind += "+resend"
 			}
 		}
 		w.build(s.items)
@@ -365,11 +472,25 @@ func main() {
 			}
 			nkeys += len(pg.keys)
 		}
-		term := fmt.Sprintf("{| c_ae := %s; c_tree := %s; c_prefix := %s; c_maxkeys := %s; c_delim := %s; c_style := %s; c_start := %s; c_cap := %s; c_pages := %s; c_final := %s |}",
-			hx.Bool(s.p.ae), coqKids(buildTree(s.items)), coqStr(s.p.prefix), hx.Z(int64(s.p.maxKeys)), hx.Bool(s.p.delim), s.p.style, coqStr(s.p.start), hx.Nat(pageCap), hx.List(ps), coqKids(buildTree(final)))
+		term := fmt.Sprintf("{| c_ae := %s; c_tree := %s; c_prefix := %s; c_maxkeys := %s; c_delim := %s; c_style := %s; c_start := %s; c_resend := %s; c_stray := %s; c_fo := %s; c_enc := %s; c_cap := %s; c_pages := %s; c_final := %s |}",
+			hx.Bool(s.p.ae), coqKids(buildTree(s.items)), coqStr(s.p.prefix), hx.Z(int64(s.p.maxKeys)), hx.Bool(s.p.delim), s.p.style, coqStr(s.p.start), hx.Bool(s.p.resend), coqStr(s.p.stray), hx.Bool(s.p.fo), hx.Bool(s.p.enc), hx.Nat(pageCap), hx.List(ps), coqKids(buildTree(final)))
 		canon := fmt.Sprintf("%v|%+v", s.items, s.p)
 		out.Add(term, canon, nontrivial, s.kind)
 		out.Count("style:"+s.p.style, 1)
+		if s.p.v2() {
+			out.Count(fmt.Sprintf("v2:start-after=%v,resend=%v", s.p.start != "", s.p.resend), 1)
+			if s.p.start != "" && s.p.resend && len(pages) > 1 {
+				out.Count("v2:token+start-after-on-follow-up-page", len(pages)-1)
+				for _, pg := range pages[:len(pages)-1] {
+					if pg.next < s.p.start {
+						out.Count("v2:token-sorts-below-resent-start-after", 1)
+					}
+				}
+			}
+		}
+		if s.p.stray != "" {
+			out.Count("stray-params", 1)
+		}
 		out.Count(fmt.Sprintf("maxkeys:%d", s.p.maxKeys), 1)
 		out.Count("prefix:"+s.p.prefix, 1)
 		out.Count(fmt.Sprintf("delim:%v", s.p.delim), 1)
